@@ -5,6 +5,7 @@ one-line summaries of changes already tried (so that new ones differ) -- nothing
 import json, os, sys, glob
 V = os.path.dirname(os.path.dirname(os.path.dirname(os.path.abspath(__file__))))
 rnd = sys.argv[1] if len(sys.argv) > 1 else "3"
+suffix = sys.argv[2] if len(sys.argv) > 2 else ""
 os.makedirs("/root/mut/prompts", exist_ok=True)
 for l in open(os.path.join(V, "properties.jsonl")):
     p = json.loads(l); pid = p["id"]
@@ -15,8 +16,8 @@ for l in open(os.path.join(V, "properties.jsonl")):
             prev.append("- " + ", ".join(os.path.basename(f) for f in m.get("files_changed", [])) + ": " + (m.get("summary") or "")[:260].replace("\n", " "))
         except Exception:
             pass
-    wt = "/tmp/mut/%s" % pid
-    out = "/tmp/mut/%s.out" % pid
+    wt = "/tmp/mut/%s%s" % (pid, suffix)
+    out = "/tmp/mut/%s%s.out" % (pid, suffix)
     txt = f"""# Task: seed a realistic property-breaking change into celeritas ({pid}, round {rnd})
 
 You are an experienced C++ developer testing the strength of a verification effort. You work ONLY in
@@ -113,5 +114,5 @@ Leave your change applied in `{wt}` (built) when you finish. In your final reply
 suite pass with a property-breaking change, say so plainly rather than handing in something that
 fails tests.
 """
-    open("/root/mut/prompts/%s.md" % pid, "w").write(txt)
+    open("/root/mut/prompts/%s%s.md" % (pid, suffix), "w").write(txt)
 print("written")
